@@ -230,6 +230,9 @@ pub trait Cfg: 'static {
     fn pin(_proof: &BatchStarkProof<SCOf<Self>>) -> String {
         String::new()
     }
+    /// The plain (un-hooked) permutation of this configuration on `WIDTH` base limbs (used by
+    /// C06 to recompute a permutation row from prover-chosen row inputs; C05 does not call it).
+    fn raw_permute(x: &mut [BOf<Self>]);
 }
 
 fn goldilocks_poseidon2_8() -> Poseidon2Goldilocks<8> {
@@ -293,6 +296,12 @@ macro_rules! def_cfg {
             }
             fn circuit_challenger() -> Box<dyn RecursiveChallenger<BOf<Self>, EOf<Self>>> {
                 Box::new(CircuitChallenger::<$w, $r, $ccty>::new($cc))
+            }
+            fn raw_permute(x: &mut [BOf<Self>]) {
+                let p: $permty = $permfn;
+                let mut a: [BOf<Self>; $w] = core::array::from_fn(|i| x[i]);
+                p.permute_mut(&mut a);
+                x.copy_from_slice(&a);
             }
             #[allow(unused_variables)]
             fn enable(
